@@ -407,6 +407,20 @@ thread_local! {
     static LAST_PANIC: std::cell::RefCell<Option<String>> = const { std::cell::RefCell::new(None) };
 }
 
+thread_local! {
+    static PANICS: std::cell::Cell<u64> = const { std::cell::Cell::new(0) };
+}
+
+/// number of panics seen on this thread so far (tasks of an in-process server run on the
+/// thread of the case that started it, because every worker has a current-thread runtime)
+pub fn panic_count() -> u64 {
+    PANICS.with(|p| p.get())
+}
+
+pub fn last_panic() -> Option<String> {
+    LAST_PANIC.with(|p| p.borrow().clone())
+}
+
 /// install a panic hook that records the message (and location) instead of printing it
 pub fn install_panic_hook() {
     std::panic::set_hook(Box::new(|info| {
@@ -419,6 +433,7 @@ pub fn install_panic_hook() {
         };
         let loc = info.location().map(|l| format!("{}:{}", l.file(), l.line())).unwrap_or_default();
         LAST_PANIC.with(|p| *p.borrow_mut() = Some(format!("{msg} at {loc}")));
+        PANICS.with(|p| p.set(p.get() + 1));
         if std::env::var("VERIF_SHOW_PANICS").is_ok() {
             eprintln!("panic: {msg} at {loc}");
         }
